@@ -8,6 +8,7 @@ pub mod hist;
 pub mod fmtx;
 pub mod parsers;
 pub mod sched;
+pub mod hsched;
 pub mod rtrnet;
 pub mod clibin;
 pub mod httpsrv;
@@ -53,6 +54,7 @@ pub mod c34;
 pub mod c35;
 pub mod c36;
 pub mod c37;
+pub mod c37net;
 pub mod c38;
 pub mod c39;
 pub mod c40;
